@@ -10,6 +10,7 @@ REPLAY = os.path.join(VERIF, 'replay')
 # batteries per property: list of argv lists (cheap first)
 BATTERIES = {
     'C17': [['arena', '5']],
+    'C16': [['visit'], ['visit-cf', '4', '3']],
     'C03': [['op'], ['cf', '4', '3'], ['cf', '5', '2']],
     'C01': [['op'], ['cf', '4', '3']],
     'C15': [['cf', '4', '3']],
